@@ -660,23 +660,26 @@ func (h *harness) doMsg(step int, op Op) *kit.Result {
 	// P2, P3, P5 speak about rejected newcomers whose block is present: a newcomer without a
 	// local block is itself one of the "wants without local blocks" that go first.
 	// A message with more wants than the limit is first cut to the limit, lowest priorities
-	// first (godoc of WithMaxQueuedWantlistEntriesPerPeer); thr is the lowest priority that
-	// survives that cut, so a rejected newcomer at or below thr may simply have been cut.
-	thr := int32(-1 << 31)
-	if trunc {
-		var ps []int32
-		for _, ci := range wantOrder {
-			ps = append(ps, wants[ci].Priority)
+	// first (godoc of WithMaxQueuedWantlistEntriesPerPeer). A newcomer survives that cut for
+	// certain only if it and all wants of at least its priority fit into the limit.
+	mayBeCut := func(n int) bool {
+		if !trunc {
+			return false
 		}
-		sort.Slice(ps, func(i, j int) bool { return ps[i] > ps[j] })
-		thr = ps[h.c.Cfg.Limit-1]
+		cnt := 0
+		for _, ci := range wantOrder {
+			if wants[ci].Priority >= wants[n].Priority {
+				cnt++
+			}
+		}
+		return cnt > h.c.Cfg.Limit
 	}
 	for _, n := range rejected {
 		if !hasBlk(n) {
 			continue
 		}
 		pn := wants[n].Priority
-		if trunc && pn <= thr {
+		if mayBeCut(n) {
 			continue
 		}
 		// P2
@@ -1186,7 +1189,7 @@ func sample(c Case) any {
 var spec = kit.Spec[Case]{
 	Prop: "C36", Name: "main",
 	Rule:  "decision engine in a synctest bubble: generated script (<=30/45 steps) of want-list messages (full/incremental, ties, cancels, duplicate, identity and oversize CIDs) from 1-3 peers, blockstore add+notify/remove, take-envelope(+MessageSent+Sent), disconnect, tick; limits 1..32, replace size 0/8/1024, filter, maxCidSize, targetMessageSize; per-envelope oracle, want-list subset/limit invariant, overflow predicates P1-P5, answered-at-quiescence; non-trivial = an overflow with >=2 distinct priorities among the existing entries, or a block removed while an accepted want for it was unanswered",
-	Quick: 4000, Thorough: 12000,
+	Quick: 2500, Thorough: 12000,
 	Gen: gen, Run: run, Sample: sample, Journal: true,
 }
 
